@@ -1,6 +1,7 @@
 package zz_verifsim
 
 import (
+	"bytes"
 	"crypto/ecdsa"
 	"crypto/ed25519"
 	"crypto/sha256"
@@ -87,6 +88,18 @@ type oracle struct {
 	signs  []signRec
 	blsPub map[hotstuff.ID]*bls12.PointG1
 	popOK  map[hotstuff.ID]bool // BLS: the configured key comes with a valid proof of possession (computed on first use)
+	// what each honest replica attested in its own timeout message for a view: the QC, byte for byte
+	attested map[[2]uint64]hotstuff.QuorumCert
+}
+
+func sameQC(a, b hotstuff.QuorumCert) bool {
+	if a.View() != b.View() || a.BlockHash() != b.BlockHash() || (a.Signature() == nil) != (b.Signature() == nil) {
+		return false
+	}
+	if a.Signature() == nil {
+		return true
+	}
+	return bytes.Equal(a.Signature().ToBytes(), b.Signature().ToBytes()) && fmt.Sprint(participantsOf(a.Signature())) == fmt.Sprint(participantsOf(b.Signature()))
 }
 
 var blsPopDomain = []byte("BLS_POP_BLS12381G2_XMD:SHA-256_SSWU_RO_POP_") // the standard proof-of-possession tag
@@ -131,6 +144,20 @@ func newOracle(w *World) *oracle {
 			o.blsPub[id] = p
 		}
 	}
+	o.attested = map[[2]uint64]hotstuff.QuorumCert{}
+	w.hooks.onSend = append(w.hooks.onSend, func(from *Node, _ hotstuff.ID, m *Msg) {
+		if from == nil || !from.honest || from.byz != nil || m.forged || m.kind != "timeout" {
+			return
+		}
+		if tm, ok := m.val.(hotstuff.TimeoutMsg); ok && tm.MsgSignature != nil && tm.ID == from.id {
+			if qc, ok := tm.SyncInfo.QC(); ok {
+				k := [2]uint64{uint64(tm.ID), uint64(tm.View)}
+				if _, seen := o.attested[k]; !seen {
+					o.attested[k] = qc
+				}
+			}
+		}
+	})
 	w.hooks.onSign = append(w.hooks.onSign, func(nd *Node, msg []byte, sig hotstuff.QuorumSignature) {
 		h := hotstuff.Hash(sha256.Sum256(msg))
 		if o.signed[h] == nil {
@@ -334,6 +361,19 @@ func (o *oracle) aggBacked(agg hotstuff.AggregateQC) (ok bool, highView hotstuff
 		return hotstuff.TimeoutMsg{ID: id, View: agg.View(), SyncInfo: hotstuff.NewSyncInfoWith(qc)}.ToBytes()
 	}
 	vs := o.validSigners(agg.Sig(), msgOf)
+	// a signer counts for the entry it attested, byte for byte: an aggregate that lists another QC for an honest
+	// signer than that signer put into its timeout message for this view presents something nobody signed
+	for id := 1; id <= o.w.plan.N; id++ {
+		if !vs[hotstuff.ID(id)] {
+			continue
+		}
+		if att, ok := o.attested[[2]uint64{uint64(id), uint64(agg.View())}]; ok {
+			if qc, ok := agg.QCs()[hotstuff.ID(id)]; ok && !sameQC(att, qc) {
+				delete(vs, hotstuff.ID(id))
+				o.w.probe("c02-aggregate-entry-not-as-attested")
+			}
+		}
+	}
 	if len(vs) < o.q {
 		return false, 0, false, fmt.Sprintf("%d distinct valid signers of their timeout message < quorum %d", len(vs), o.q)
 	}
